@@ -4,10 +4,14 @@ import vcheck as V
 
 
 class StreamCfg:
-    def __init__(self, name, quick, thorough, judge=None, rule="", model=True, race=False):
+    def __init__(self, name, quick, thorough, judge=None, rule="", model=True, race=False, accept=None):
         self.name, self.quick, self.thorough, self.judge, self.rule = name, quick, thorough, judge, rule
         self.model = model      # False: implementation-only stream judged by `judge`
-        self.race = race
+        self.race = race        # run the stream with the -race build of the harness (build/bin/h-race)
+        # accept: extracted acceptance checker `input ++ observed output -> [1] | [0; reason]` for streams
+        # whose implementation output is not a function of the input (the model admits a set of outcomes);
+        # a rejected observation is a broken correspondence
+        self.accept = accept
 
 
 class Prop:
@@ -100,7 +104,7 @@ def run_stream(prop, res, sc, workdir):
     if os.path.exists(corpus):
         cin = V.read_lines(corpus)
         cin = [l for l in cin if l.strip() and not l.startswith("#")]
-        rc, cout = V.run_h(["run", sc.name], inp="\n".join(cin) + "\n")
+        rc, cout = V.run_h(["run", sc.name], inp="\n".join(cin) + "\n", race=sc.race)
         couts = cout.split("\n")[:len(cin)]
         # prepend
         cdesc = ["corpus"] * len(cin)
@@ -141,6 +145,19 @@ def run_stream(prop, res, sc, workdir):
             res.broken.append({"kind": "correspondence", "name": f"stream {sc.name}: model and implementation disagree",
                                "detail": {"count": len(mism), "first": mism[:3]}})
             V.log(f"correspondence {sc.name}: {len(mism)} mismatches, first: {mism[0]['desc']} impl={mism[0]['impl'][:120]} model={mism[0]['model'][:120]}")
+    if sc.accept:
+        t1 = time.time()
+        rej = V.judge(sc.accept, ins, impl, workdir, sc.name + ".accept")
+        info["accept_s"] = round(time.time() - t1, 2)
+        info["accepted"] = len(ins) - len(rej)
+        info["rejected"] = len(rej)
+        if rej:
+            first = [{"index": i, "desc": desc[i] if i < len(desc) else "", "in": ins[i], "impl": impl[i], "verdict": v}
+                     for i, v in rej[:3]]
+            res.broken.append({"kind": "correspondence",
+                               "name": f"stream {sc.name}: observed behaviour is not admitted by the model ({sc.accept})",
+                               "detail": {"count": len(rej), "first": first}})
+            V.log(f"correspondence {sc.name}: {len(rej)} observations rejected by {sc.accept}, first: {first[0]['desc'][:300]} impl={first[0]['impl'][:160]} verdict={first[0]['verdict']}")
     info["_mism"] = mism
     info["_prefix"] = prefix
     return info
@@ -239,7 +256,7 @@ def run(prop, res):
     for sc in prop.streams:
         if sc.model and not model_ok:
             # still run the implementation side so that the witness search has observations
-            sc2 = StreamCfg(sc.name, sc.quick, sc.thorough, sc.judge, sc.rule, model=False, race=sc.race)
+            sc2 = StreamCfg(sc.name, sc.quick, sc.thorough, sc.judge, sc.rule, model=False, race=sc.race)  # no accept: needs the model
             infos.append((sc, run_stream(prop, res, sc2, workdir)))
         else:
             infos.append((sc, run_stream(prop, res, sc, workdir)))
@@ -278,7 +295,7 @@ def replay(prop, res, path):
     if body.get("kind") == "witness":
         stream = body["stream"]
         sc = [s for s in prop.streams if s.name == stream][0]
-        rc, out = V.run_h(["run", stream], inp=body["input"] + "\n")
+        rc, out = V.run_h(["run", stream], inp=body["input"] + "\n", race=sc.race)
         impl = out.strip().split("\n")[0]
         print("input :", body.get("desc") or body["input"])
         print("impl  :", impl)
@@ -735,3 +752,29 @@ reg(Prop("C05", "Pseudo-legality test accepts exactly the moves the generator em
                       "target behind a pawn that could just have double-pushed)",
                       "move encodings below 2^15 (bit 15 of the storage word is clear in every move the engine creates)"],
          design_ref="5/C05"))
+
+
+reg(Prop("C13", "UCI driver answers every request exactly once under any command timing", "Properties/C13.v",
+         [StreamCfg("c13", 2000, 30000, judge="judge_c13", accept="accepts_c13", model=False, race=True,
+                    rule="grammar-generated conforming scripts (uci, isready, ucinewgame, setoption, position, go "
+                         "infinite/depth/nodes/movetime/clock[+inc] with and without ponder, stop, ponderhit, debug, quit, EOF) "
+                         "x delay vectors (random, and the line after the first go swept over 0, d-1, d, d+1 against the "
+                         "search duration d; 40% back-to-back scripts: searches that end at once, next line sent the moment "
+                         "bestmove is seen) "
+                         "x blocking mock search or real search (25% of the grammar scripts), real uci.Driver over OS pipes "
+                         "in a -race worker process; non-trivial = a command or end of input races with a search; distinct by "
+                         "(script, delays)")],
+         trusted=["no hook: uci.WithSearch / WithInput / WithOutput are the driver's public options",
+                  "runtime behaviour that the transition system cannot exhibit is only OBSERVED during trace validation, "
+                  "not proved: data races (Go race detector, worker built with -race, GORACE=halt_on_error), torn writes at "
+                  "the OS level (every stdout line must match the grammar of its kind), goroutine leaks "
+                  "(runtime.NumGoroutine back to the baseline after Run returns), panics (worker exit status)",
+                  "modelled, not verified: Go channel / select / sync.WaitGroup / time.Timer semantics as transcribed in "
+                  "Model/Uci.v (lines are atomic: one pooled buffer per Write); the search is abstract (any number of info "
+                  "lines up to a bound, may end on its own, ends once stop is closed)",
+                  "the GUI consumes stdout (the Writer step is always enabled) and obeys the protocol (Model/Uci.v conf)"],
+         assumptions=["conforming scripts: uci/go/position/ucinewgame/setoption only after the bestmove of the previous go; "
+                      "a search that does not end on its own and has no armed timer gets stop (or ponderhit where that arms "
+                      "the timer / releases the mock) before the GUI waits for its bestmove; quit only as the last line",
+                      "the search terminates once stop is closed and prints finitely many info lines"],
+         design_ref="5/C13"))
